@@ -1,11 +1,28 @@
 (* C13 - A proof outline cannot make an unjustified claim available as an axiom.
-   Statements only; proofs live in Proofs/OutlineOk.v, OutlineSound.v, ExternalOk.v.
+   Statements only; proofs live in Proofs/OutlineOk.v, OutlineSound.v, ExternalOk.v, C13Full.v.
    Model: Model/Outline.v (definition, inductive_lemma, GeneralLemma::try_from,
-   ProofOutline::from_specification, outline_problems) and Model/External.v (direction_problems). *)
+   ProofOutline::from_specification, outline_problems) and Model/External.v (direction_problems);
+   end to end: Model/ExternalFull.v.
+
+   Audit A18:
+   (a) C13_sound is instantiated on accepted tasks WITH a proof outline: C13_sound_accepted (any
+       components), C13_sound_full (Model/ExternalFull.v); non-vacuity on the shipped example
+       res/examples/external_equivalence/division (C13_division_accepted, C13_division_sound), parsed and
+       computed inside Coq;
+   (b) the chain of an accepted outline is EXACT ([outline_chain], no weakening constructor): the
+       clause "the body mentions only predicates of the task or of earlier entries" is
+       C13_definition_earlier; the audit's counterexample is refuted (C13_no_weakening);
+   (c) direction filtering and the order of the emitted list: C13_accepted (the four lists of the
+       outline are the source entries of the direction, in source order), C13_order_positions,
+       C13_order_final;
+   (d) C13_induction_nonvacuous goes through the model function [inductive_lemma]. *)
 From Coq Require Import List String ZArith NArith Bool.
 Import ListNotations.
-From Anthem Require Import Base.ISet Base.Fresh Syntax.Fol Sem.Domain Sem.Sat Model.Subst Model.Problem Model.Outline
-  Model.External Proofs.SemBase Proofs.DecomposeOk Proofs.StrongOk Proofs.ExternalOk Proofs.OutlineOk Proofs.OutlineSound Proofs.TasksClosed.
+From Anthem Require Import Base.ISet Base.Fresh Syntax.Fol Syntax.Asp Sem.Domain Sem.Sat Model.Subst Model.Problem Model.Outline
+  Model.Strong Model.External Model.ExternalFull Model.TauStar Model.Completion
+  Proofs.SemBase Proofs.DecomposeOk Proofs.StrongOk Proofs.ExternalOk Proofs.OutlineOk Proofs.OutlineSound Proofs.TasksClosed
+  Proofs.C19Ext Proofs.C13Full.
+From Anthem Require Model.AspParse Model.FolParse.
 Open Scope string_scope.
 
 (* the substitution lemma of C17, in the shape the `subst` cluster proves it; it is the only
@@ -55,23 +72,65 @@ Theorem C13_definition :
 Proof. exact definition_conservative. Qed.
 Print Assumptions C13_definition.
 
-(* ... and the same for the whole sequence of definitions of an accepted outline: some M' agrees
-   with M on all taken predicates (hence on every formula of the task) and satisfies all of them *)
+(* THE CHAIN OF AN ACCEPTED OUTLINE (Proofs/OutlineOk.v).  [outline_chain m taken l]: the entries of l,
+   placeholders of m replaced, were accepted one after the other, each against the set of taken
+   predicates the code has at that point -
+     oc_lemma  a lemma / inductive lemma: the predicates of its formula become taken;
+     oc_def    a definition: [definition f taken = Ok (p, w)] for the CURRENT set, p becomes taken.
+   There is no weakening: the current set is [taken] plus the predicates of the earlier entries. *)
+
+(* ... conservativity for ALL definitions of the chain at once (both directions): some M' agrees
+   with M on the initial taken predicates (hence on every formula of the task) and satisfies them *)
 Theorem C13_definitions :
-  forall (taken : list pred) (fs : list formula), def_chain taken fs ->
+  forall (m : placeholders) (taken : list pred) (l : specification), outline_chain m taken l ->
     forall (FI : fint) (M : pint), exists M' : pint,
-      pagree taken M M' /\ (forall f, In f fs -> cvalid FI M' f).
-Proof. exact defs_conservative. Qed.
+      pagree taken M M' /\ (forall f, In f (map an_formula (chain_definitions m l)) -> cvalid FI M' f).
+Proof. exact chain_conservative. Qed.
 Print Assumptions C13_definitions.
 
-(* what an accepted outline consists of: definitional chains and lemmas whose conjectures imply
-   their consequences (basic lemma: the same formula; inductive lemma: C13_induction) *)
+(* THE PROPERTY CLAUSE: a definition at any position of the chain is forall Xs (p(ts) <-> F) where p
+   occurs neither in the initial set (the task) nor in an earlier entry, and F mentions only
+   predicates of the initial set or of earlier entries *)
+Theorem C13_definition_earlier :
+  forall (m : placeholders) (taken : list pred) (pre : specification) (a0 : aformula_annot) (post : specification),
+    outline_chain m taken (pre ++ a0 :: post)%list -> an_role (rp_annot m a0) = RDefinition ->
+    exists vs q ts rhs,
+      entry_formula m a0 = FQ QForall vs (FBin CIff (FAtomic (AAtom q ts)) rhs) /\
+      (~ In (mkpred q (List.length ts)) taken /\
+       forall b, In b pre -> ~ In (mkpred q (List.length ts)) (entry_preds m b)) /\
+      (forall r, In r (predicates rhs) -> In r taken \/ exists b, In b pre /\ In r (entry_preds m b)).
+Proof. exact chain_definition_earlier. Qed.
+Print Assumptions C13_definition_earlier.
+
+(* the former def_chain had a weakening constructor, so that [def_chain [] [forall X (p(X) <-> zzz(X))]]
+   held although the code refuses that definition (audit, /work/audit/partF/c13/s2.v); the exact
+   chain does not contain it *)
+Example C13_no_weakening :
+  let X := mkvar "X" SGeneral in
+  let weird := mkannot RDefinition DUniversal "d"
+                 (FQ QForall [X] (FBin CIff (FAtomic (AAtom "p" [GVar "X"])) (FAtomic (AAtom "zzz" [GVar "X"])))) in
+  definition (an_formula weird) [] = Err UndefinedRhsPredicate /\ ~ outline_chain [] [] [weird].
+Proof.
+  cbv zeta. split; [vm_compute; reflexivity|]. intros H.
+  inversion H; subst.
+  - match goal with Hl : is_lemma_entry _ _ |- _ => destruct Hl as [Hl|Hl]; discriminate Hl end.
+  - match goal with Hd : definition _ _ = Ok _ |- _ => vm_compute in Hd; discriminate Hd end.
+Qed.
+
+(* what an accepted outline consists of: an exact chain; its four lists are the entries of the
+   source outline selected by DIRECTION, in source order (an entry annotated `forward` goes to the
+   forward lists, `backward` to the backward lists, an entry without annotation to both:
+   [definitions_of_dir], [lemmas_of_dir]); every lemma is sound (conjectures true => consequences
+   true: the formula itself, resp. base + step => the lemma, C13_induction) with the right roles *)
 Theorem C13_accepted :
   substitution_lemma ->
   forall (s : specification) (taken : list pred) (m : placeholders) (o : proof_outline) (ws : list po_warning),
     from_specification s taken m = Ok (o, ws) ->
-    def_chain taken (map an_formula (forward_definitions o)) /\
-    def_chain taken (map an_formula (backward_definitions o)) /\
+    outline_chain m taken s /\
+    forward_definitions o = definitions_of_dir true m s /\
+    backward_definitions o = definitions_of_dir false m s /\
+    forward_lemmas o = lemmas_of_dir true m s /\
+    backward_lemmas o = lemmas_of_dir false m s /\
     Forall (fun g => lemma_sound g /\ lemma_roles g) (forward_lemmas o) /\
     Forall (fun g => lemma_sound g /\ lemma_roles g) (backward_lemmas o).
 Proof. exact from_specification_ok. Qed.
@@ -80,12 +139,24 @@ Print Assumptions C13_accepted.
 Theorem C13_accepted_closed :
   forall (s : specification) (taken : list pred) (m : placeholders) (o : proof_outline) (ws : list po_warning),
     from_specification s taken m = Ok (o, ws) ->
-    def_chain taken (map an_formula (forward_definitions o)) /\
-    def_chain taken (map an_formula (backward_definitions o)) /\
+    outline_chain m taken s /\
+    forward_definitions o = definitions_of_dir true m s /\
+    backward_definitions o = definitions_of_dir false m s /\
+    forward_lemmas o = lemmas_of_dir true m s /\
+    backward_lemmas o = lemmas_of_dir false m s /\
     Forall (fun g => lemma_sound g /\ lemma_roles g) (forward_lemmas o) /\
     Forall (fun g => lemma_sound g /\ lemma_roles g) (backward_lemmas o).
 Proof. exact from_specification_ok_closed. Qed.
 Print Assumptions C13_accepted_closed.
+
+(* the definitions of each direction of an accepted outline are conservative over the task *)
+Theorem C13_accepted_definitions_conservative :
+  forall (s : specification) (taken : list pred) (m : placeholders) (o : proof_outline) (ws : list po_warning),
+    from_specification s taken m = Ok (o, ws) ->
+    conservative_over taken (map an_formula (forward_definitions o)) /\
+    conservative_over taken (map an_formula (backward_definitions o)).
+Proof. exact accepted_definitions_conservative_closed. Qed.
+Print Assumptions C13_accepted_definitions_conservative.
 
 (* C13_order: the problems emitted for the lemmas of a direction are exactly: for the k-th lemma g
    and its j-th conjecture c, the problem named <prefix>_outline_k_j whose axioms are the initial
@@ -101,6 +172,31 @@ Theorem C13_order :
 Proof. exact outline_problems_in. Qed.
 Print Assumptions C13_order.
 
+(* ... and WHERE in the emitted list of the direction: the problem of the j-th conjecture of the k-th
+   lemma is element number (conjectures of the lemmas before k) + j of [direction_problems]; its
+   axioms are the stable premises, the premises of the direction and the direction's definitions,
+   followed by the consequences of the lemmas before k *)
+Theorem C13_order_positions :
+  forall prefix stable premises defs lemmas conclusions dec k g j c,
+    nth_error lemmas k = Some g -> nth_error (gl_conjectures g) j = Some c ->
+    nth_error (direction_problems prefix stable premises defs lemmas conclusions dec)
+              (conj_count (firstn k lemmas) + j)
+    = Some (outline_problem (outline_name prefix (N.of_nat k) (N.of_nat j))
+              (direction_axioms stable premises defs ++ flat_map gl_consequences (firstn k lemmas))%list c).
+Proof. exact direction_problems_nth. Qed.
+Print Assumptions C13_order_positions.
+
+(* the outline problems are exactly the first [conj_count lemmas] elements; the final problems
+   (whose axioms contain the consequences of ALL lemmas and none of the definitions) follow *)
+Theorem C13_order_final :
+  forall prefix stable premises defs lemmas conclusions dec,
+    skipn (conj_count lemmas) (direction_problems prefix stable premises defs lemmas conclusions dec)
+    = final_problem (prefix ++ "_problem")%string stable premises lemmas conclusions dec /\
+    firstn (conj_count lemmas) (direction_problems prefix stable premises defs lemmas conclusions dec)
+    = outline_problems prefix 0 (direction_axioms stable premises defs) lemmas.
+Proof. exact direction_problems_final. Qed.
+Print Assumptions C13_order_final.
+
 (* C13_sound: if no interpretation refutes any problem emitted for a direction, the premises of
    the direction entail its conclusions in every interpretation.  [taken] contains the predicates
    of the task's own formulas; [fs] is any list containing all formulas involved, free of
@@ -108,7 +204,7 @@ Print Assumptions C13_order.
 Theorem C13_sound :
   forall prefix stable premises defs lemmas conclusions dec taken fs,
     all_role PAxiom stable -> all_role PAxiom premises -> all_role PConjecture conclusions ->
-    def_chain taken (map an_formula defs) ->
+    conservative_over taken (map an_formula defs) ->
     Forall (fun g => lemma_sound g /\ lemma_roles g) lemmas ->
     (forall a, In a (stable ++ premises ++ conclusions) ->
        forall r, In r (predicates (pf_formula a)) -> In r taken) ->
@@ -121,6 +217,73 @@ Theorem C13_sound :
                  tvalid FI M (map pf_formula conclusions).
 Proof. exact direction_sound. Qed.
 Print Assumptions C13_sound.
+
+(* C13_sound ON REAL TASKS (audit A18 a).  For a task the model accepts - proof outline included -
+   every side condition of C13_sound is discharged: roles (assembly), conservativity of the
+   definitions and soundness of the lemmas (accepted outline), vocabulary (the outline was checked
+   against the input predicates and the predicates of both sides; the premises and conclusions are
+   formulas of the sides, broken parts of them, or user-guide assumptions over input predicates),
+   coverage.  Remaining premise: [validated_no_clash] (finding F8b; decidable:
+   C13_clash_premise_decidable).  [a] is the assembled task: stable premises = user-guide
+   assumptions and the universal assumptions of both sides, premises / conclusions of a direction =
+   what ValidatedExternalEquivalenceTask::decompose puts there (AssemblyOk.validated_assemble_contribs). *)
+Theorem C13_sound_accepted :
+  forall (is_tight : program -> bool) (has_private_recursion : program -> list pred -> bool)
+         (tau_star : program -> theory) (completion : theory -> list pred -> option theory)
+         (simp_classic : formula -> formula) (t : ext_task) w pbs,
+    external_decompose is_tight has_private_recursion tau_star completion simp_classic t = Ok (w, pbs) ->
+    (forall vt, task_validated tau_star completion simp_classic t = Some vt -> validated_no_clash vt) ->
+    exists vt w' a,
+      task_validated tau_star completion simp_classic t = Some vt /\
+      validated_assemble vt = Some (w', a) /\ pbs = assembled_decompose a /\
+      ((forall FI M, ~ refutes_some FI M
+          (direction_problems "forward" (at_stable_premises a) (at_forward_premises a)
+             (forward_definitions (at_proof_outline a)) (forward_lemmas (at_proof_outline a))
+             (at_forward_conclusions a) (at_decomposition a))) ->
+       forall FI M, tvalid FI M (map pf_formula (at_stable_premises a)) ->
+                    tvalid FI M (map pf_formula (at_forward_premises a)) ->
+                    tvalid FI M (map pf_formula (at_forward_conclusions a))) /\
+      ((forall FI M, ~ refutes_some FI M
+          (direction_problems "backward" (at_stable_premises a) (at_backward_premises a)
+             (backward_definitions (at_proof_outline a)) (backward_lemmas (at_proof_outline a))
+             (at_backward_conclusions a) (at_decomposition a))) ->
+       forall FI M, tvalid FI M (map pf_formula (at_stable_premises a)) ->
+                    tvalid FI M (map pf_formula (at_backward_premises a)) ->
+                    tvalid FI M (map pf_formula (at_backward_conclusions a))).
+Proof.
+  intros it hp ts cp sc t w pbs. exact (accepted_sound it hp ts cp sc SubstOk.substitute_sem t w pbs).
+Qed.
+Print Assumptions C13_sound_accepted.
+
+(* ... for the end-to-end model (real tau*, completion, simplification), every fuel *)
+Theorem C13_sound_full :
+  forall (fuel : nat) (t : ext_task) w pbs,
+    external_decompose_full fuel t = XOk w pbs ->
+    (forall vt, task_validated tau_star_total completion (simp_classic_total fuel) t = Some vt -> validated_no_clash vt) ->
+    exists vt w' a,
+      task_validated tau_star_total completion (simp_classic_total fuel) t = Some vt /\
+      validated_assemble vt = Some (w', a) /\ pbs = assembled_decompose a /\
+      ((forall FI M, ~ refutes_some FI M
+          (direction_problems "forward" (at_stable_premises a) (at_forward_premises a)
+             (forward_definitions (at_proof_outline a)) (forward_lemmas (at_proof_outline a))
+             (at_forward_conclusions a) (at_decomposition a))) ->
+       forall FI M, tvalid FI M (map pf_formula (at_stable_premises a)) ->
+                    tvalid FI M (map pf_formula (at_forward_premises a)) ->
+                    tvalid FI M (map pf_formula (at_forward_conclusions a))) /\
+      ((forall FI M, ~ refutes_some FI M
+          (direction_problems "backward" (at_stable_premises a) (at_backward_premises a)
+             (backward_definitions (at_proof_outline a)) (backward_lemmas (at_proof_outline a))
+             (at_backward_conclusions a) (at_decomposition a))) ->
+       forall FI M, tvalid FI M (map pf_formula (at_stable_premises a)) ->
+                    tvalid FI M (map pf_formula (at_backward_premises a)) ->
+                    tvalid FI M (map pf_formula (at_backward_conclusions a))).
+Proof. exact accepted_sound_full. Qed.
+Print Assumptions C13_sound_full.
+
+Theorem C13_clash_premise_decidable :
+  forall vt : validated_task, validated_no_clashb vt = true -> validated_no_clash vt.
+Proof. exact validated_no_clashb_ok. Qed.
+Print Assumptions C13_clash_premise_decidable.
 
 (* the letter of the property ("a predicate that occurs nowhere in the task or in earlier outline
    entries"): every accepted outline is strictly fresh.  [seen] starts as (a subset of) the taken
@@ -157,11 +320,100 @@ Proof.
   - cbn. repeat split; auto. intros p [= <-] [H|[]]. discriminate.
 Qed.
 
-(* non-vacuity of C13_induction's premise shape: the base/step construction on a concrete lemma *)
+(* ---------------- non-vacuity on a SHIPPED example (audit A18 a, d) ----------------
+   /repo/res/examples/external_equivalence/division:
+     anthem verify --equivalence external --direction backward division.lp division.spec division.ug division.po
+   The four files are parsed INSIDE Coq by the parser models (AspParse, FolParse) and the end-to-end
+   model computes the task: five problems, the names the CLI writes. *)
+Definition division_lp : string := "div(N,D,Q,R) :- N = D*Q+R, 0 <= R, R < D.
+".
+Definition division_spec : string := "spec: forall N$ D$ (N$ >= 0 and D$ > 0 -> exists Q$ R$ div(N$,D$,Q$,R$)).
+".
+Definition division_ug : string := "output: div/4.
+".
+Definition division_po : string := "lemma:
+div(N$,D$,Q$,R$) and R$ < D$-1 -> div(N$+1,D$,Q$,R$+1).
+
+lemma:
+div(N$,D$,Q$,D$-1) -> div(N$+1,D$,Q$+1,0).
+
+inductive-lemma:
+forall N$ (N$ >= 0 -> (D$ > 0 -> exists Q$ R$ div(N$,D$,Q$,R$))).
+".
+Definition division_task : option ext_task :=
+  match AspParse.parse_program_text division_lp, FolParse.parse_spec_str division_spec,
+        FolParse.parse_ug_str division_ug, FolParse.parse_spec_str division_po with
+  | AspParse.POk p, FolParse.PR_ok s, FolParse.PR_ok u, FolParse.PR_ok o =>
+      Some (mkext (inr s) p u o DIndependent DBackward ReprTauStar false true true)
+  | _, _, _, _ => None
+  end.
+
+(* the model accepts the task and emits the outline problems of the three entries (the inductive
+   lemma gives two: base case and inductive step) followed by the final problem *)
+Example C13_division_accepted :
+  exists t pbs, division_task = Some t /\ external_decompose_full full_fuel t = XOk [] pbs /\
+    map pb_name pbs = ["backward_outline_0_0"; "backward_outline_1_0"; "backward_outline_2_0";
+                       "backward_outline_2_1"; "backward_problem_0"].
+Proof.
+  destruct division_task as [t|] eqn:Et; [|vm_compute in Et; discriminate].
+  destruct (external_decompose_full full_fuel t) as [w pbs| | |] eqn:E;
+    try (vm_compute in Et; injection Et as <-; vm_compute in E; discriminate).
+  exists t, pbs. split; [reflexivity|].
+  vm_compute in Et. injection Et as <-. vm_compute in E. injection E as <- <-. split; reflexivity.
+Qed.
+
+(* C13_sound_full applies to it - the clash premise by computation - and yields: if no
+   interpretation refutes a backward problem, the program's completed definition of div/4 (the
+   backward premise) entails the specification (the backward conclusion), in every interpretation *)
+Example C13_division_sound :
+  exists t pbs vt w' a, division_task = Some t /\ external_decompose_full full_fuel t = XOk [] pbs /\
+    task_validated tau_star_total completion (simp_classic_total full_fuel) t = Some vt /\
+    validated_assemble vt = Some (w', a) /\ pbs = assembled_decompose a /\
+    List.length (at_backward_premises a) = 1 /\ List.length (at_backward_conclusions a) = 1 /\
+    List.length (backward_lemmas (at_proof_outline a)) = 3 /\
+    ((forall FI M, ~ refutes_some FI M pbs) ->
+     forall FI M, tvalid FI M (map pf_formula (at_stable_premises a)) ->
+                  tvalid FI M (map pf_formula (at_backward_premises a)) ->
+                  tvalid FI M (map pf_formula (at_backward_conclusions a))).
+Proof.
+  destruct C13_division_accepted as [t [pbs [Et [E _]]]].
+  assert (Hclash : forall vt, task_validated tau_star_total completion (simp_classic_total full_fuel) t = Some vt ->
+                              validated_no_clash vt).
+  { intros vt Hv. apply C13_clash_premise_decidable.
+    revert Hv. pose proof Et as Et'. vm_compute in Et'. injection Et' as <-. intros Hv.
+    vm_compute in Hv. injection Hv as <-. vm_compute. reflexivity. }
+  destruct (C13_sound_full full_fuel t [] pbs E Hclash) as [vt [w' [a [Hv [Ha [Hp [_ Hb]]]]]]].
+  exists t, pbs, vt, w', a. split; [exact Et|]. split; [exact E|]. split; [exact Hv|]. split; [exact Ha|].
+  split; [exact Hp|].
+  assert (Hshape : List.length (at_backward_premises a) = 1 /\ List.length (at_backward_conclusions a) = 1 /\
+                   List.length (backward_lemmas (at_proof_outline a)) = 3 /\
+                   at_direction a = DBackward).
+  { clear Hb Hclash. revert Hv Ha. pose proof Et as Et'. vm_compute in Et'. injection Et' as <-. intros Hv Ha.
+    vm_compute in Hv. injection Hv as <-. vm_compute in Ha. injection Ha as _ <-. repeat split; reflexivity. }
+  destruct Hshape as [H1 [H2 [H3 Hd]]]. split; [exact H1|]. split; [exact H2|]. split; [exact H3|].
+  intros Hnr. apply Hb. intros FI M Hr. apply (Hnr FI M). rewrite Hp. unfold assembled_decompose. rewrite Hd.
+  cbn [dir_forward dir_backward app]. exact Hr.
+Qed.
+
+(* non-vacuity of C13_induction THROUGH the model function: the third entry of division.po, closed
+   and with joined quantifiers as from_specification builds it, is accepted by [inductive_lemma]
+   (induction variable N, second in the block; n = 0); the base case instantiates N by 0, the step
+   proves F(N+1) from N >= 0 and F(N) *)
 Example C13_induction_nonvacuous :
-  exists vs v n rhs,
-    FQ QForall vs (FBin CImp (FAtomic (ACmp (GInt (IVar v)) [mkguard RGe (GInt (INum n))])) rhs)
-    = FQ QForall [mkvar "N" SInteger]
-        (FBin CImp (FAtomic (ACmp (GInt (IVar "N")) [mkguard RGe (GInt (INum (-2)%Z))]))
-                   (FAtomic (AAtom "p" [GInt (IVar "N")]))).
-Proof. repeat eexists. Qed.
+  let D := mkvar "D" SInteger in let N := mkvar "N" SInteger in
+  let Q := mkvar "Q" SInteger in let R := mkvar "R" SInteger in
+  let div n := FQ QExists [Q; R] (FAtomic (AAtom "div" [GInt n; GInt (IVar "D"); GInt (IVar "Q"); GInt (IVar "R")])) in
+  let dpos := FAtomic (ACmp (GInt (IVar "D")) [mkguard RGt (GInt (INum 0))]) in
+  let nge := FAtomic (ACmp (GInt (IVar "N")) [mkguard RGe (GInt (INum 0))]) in
+  let F n := FBin CImp dpos (div n) in
+  exists a,
+    FolParse.parse_spec_str division_po = FolParse.PR_ok a /\
+    option_map (fun e => universal_closure_with_quantifier_joining (an_formula e)) (nth_error a 2)
+      = Some (FQ QForall [D; N] (FBin CImp nge (F (IVar "N")))) /\
+    inductive_lemma (FQ QForall [D; N] (FBin CImp nge (F (IVar "N"))))
+      = Ok (FQ QForall [D] (F (INum 0)),
+            FQ QForall [N; D] (FBin CImp (FBin CAnd nge (F (IVar "N"))) (F (IBin BAdd (IVar "N") (INum 1))))).
+Proof.
+  cbv zeta. destruct (FolParse.parse_spec_str division_po) as [a| | |] eqn:E; try (vm_compute in E; discriminate).
+  exists a. split; [reflexivity|]. vm_compute in E. injection E as <-. split; vm_compute; reflexivity.
+Qed.
